@@ -121,6 +121,57 @@ class Check(PropertyCheck):
                                      {"input_hex": p.hex()[:4000], "output_hex": c.hex()[:2000], "level": level, "sequential": seq}))
         return out, len(comp)
 
+    def multi_operand_outputs(self):
+        """several FILE operands in ONE invocation (the per-stream state of the compressor must be reset for every operand): every
+        output file and every stream of the -c concatenation must be strict and decode to its operand"""
+        import shutil
+        import subprocess
+        exe = vlib.build_lbzip2("rel")
+        rng = self.rng
+        out = []
+        root = os.path.join(self.work, "multi")
+        for rep in range(3 if self.tier == "quick" else 20):
+            shutil.rmtree(root, ignore_errors=True)
+            os.makedirs(root)
+            plains = [enclib.gen_plain(rng, 2000) for _ in range(rng.range(2, 4))]
+            if rep == 1:
+                plains[0] = b""
+            names = ["f%d" % i for i in range(len(plains))]
+            for n, p in zip(names, plains):
+                open(os.path.join(root, n), "wb").write(p)
+            lvl = rng.range(1, 9)
+            args = ["-%d" % lvl, "-n%d" % rng.choice([1, 2, 4])] + (["-u"] if rep % 2 else [])
+            p1 = subprocess.run([exe] + args + ["-c", "--"] + names, cwd=root, stdout=subprocess.PIPE, stderr=subprocess.PIPE, timeout=120)
+            p2 = subprocess.run([exe] + args + ["-k", "--"] + names, cwd=root, stdout=subprocess.PIPE, stderr=subprocess.PIPE, timeout=120)
+            outs = []
+            for n in names:
+                q = os.path.join(root, n + ".bz2")
+                outs.append(open(q, "rb").read() if os.path.exists(q) else None)
+            problems = []
+            try:
+                if p1.returncode != 0 or declib.libbz2_decode(p1.stdout) != b"".join(plains):
+                    problems.append("-c concatenation (exit %d) is not decoded by libbz2 to the concatenated operands" % p1.returncode)
+            except Exception as e:
+                problems.append("-c concatenation rejected by libbz2 (%s)" % type(e).__name__)
+            for n, pl, o in zip(names, plains, outs):
+                try:
+                    if o is None or declib.libbz2_decode(o) != pl:
+                        problems.append("output of operand %s is missing or does not decode to it" % n)
+                except Exception as e:
+                    problems.append("output of operand %s rejected by libbz2 (%s)" % (n, type(e).__name__))
+            small = [o for o in outs if o is not None]
+            strict = declib.run_model("noexc", small) if small else []
+            for o, pl, r in zip([o for o in outs if o is not None], [pl for pl, o in zip(plains, outs) if o is not None], strict):
+                if r != declib.fmt_out(pl):
+                    problems.append("an operand's output is not accepted by the strict format decoder: %s" % r[:80])
+            if problems:
+                out.append(Violation("malformed-output:multi-operand", "lbzip2 %s on operands %s in one invocation: %s" % (
+                    " ".join(args), names, "; ".join(problems[:3])),
+                    {"operands_hex": [p.hex()[:4000] for p in plains], "args": args, "problems": problems[:6]}))
+                break
+        shutil.rmtree(root, ignore_errors=True)
+        return out
+
     def direct(self):
         quick = self.tier == "quick"
         plains = [enclib.gen_plain(self.rng, 2500) for _ in range(50 if quick else 500)] + [b"", b"x"]
@@ -144,6 +195,7 @@ class Check(PropertyCheck):
             x.payload["generator"] = "enclib.deep_table_plains(False)[%d]" % idx[0] if idx else None
         out += v
         n += k
+        out += self.multi_operand_outputs()
         self.notes.append("process-level outputs inspected: %d" % n)
         return (getattr(self, "witness_violations", []) + out)[:3]
 
